@@ -208,7 +208,8 @@ def explore_bounded(n, program, *, bound, delivery='eager', oracle=None,
 
 def replay(n, program, schedule, delivery='eager'):
     """Run one explicit schedule to completion; returns the closed world."""
-    w = _mk(n, program, delivery, want_key=False)
+    w = _mk(n, program, 'free' if delivery == 'fine' else delivery,
+            want_key=False)
     return w.run(simdist.FromList(schedule))
 
 
